@@ -144,6 +144,26 @@ def run_check(check: Check, tier: str, replay: Optional[str] = None) -> int:
     broken: List[str] = []
     if not tr_ok:
         broken.append("translator tools/py2lean.py failed on the current source: " + tr_out[-800:])
+    # pieces whose source shape the translator no longer recognises keep their previous definition; if this check uses such a
+    # piece its tie to the source is the behavioural one: a probe of the real function at the points that pin the definition down,
+    # plus this run's correspondence.  A failing probe is a broken tie.
+    tie_by_probe: Dict[str, str] = {}
+    if tr_ok:
+        kept = C.gen_status_kept()
+        if kept:
+            from . import gen_probes
+
+            used = set(C.gen_pieces_used(check.lean_modules + list(getattr(check, "gen_deps", []))))
+            for piece, why in sorted(kept.items()):
+                if piece not in used:
+                    continue
+                msg = gen_probes.run_probe(piece)
+                if msg is None:
+                    tie_by_probe[piece] = why
+                    print(f"NOTE: generated piece {piece} was not regenerated (source shape not recognised); its previous definition is kept and "
+                          f"tied to the current source by a behavioural probe and this run's correspondence")
+                else:
+                    broken.append(f"generated piece {piece} could not be regenerated ({why[:200]}) and the current code no longer behaves as its kept definition says: {msg}")
     if not drv_ok:
         broken.append("model does not build (lake build pdriver): " + _first_error(drv_out))
     if not proofs_ok:
@@ -379,6 +399,7 @@ def run_check(check: Check, tier: str, replay: Optional[str] = None) -> int:
         "discharged": discharged if proofs_ok else 0,
         "checker_cmd": "cd lean && lake build pdriver " + " ".join(check.lean_modules) + " && lake env lean <#print axioms …>" + ("; lake env leanchecker " + " ".join(rechecked) if rechecked else ""),
         "leanchecker_modules": rechecked,
+        "generated_pieces_tied_by_probe": tie_by_probe,
         "trusted_base": check.trusted_base,
         "theorems": {t: axioms.get(t) for t in check.theorems},
         "evaluations": len(cases),
